@@ -159,7 +159,7 @@ inductive Result where
   | teardownRefused
   | releaseFailed
   | notFound                              -- the API no longer lists the environment
-  deriving Repr, DecidableEq
+  deriving Repr, DecidableEq, Inhabited
 
 def Result.isOk : Result → Bool
   | .ok => true
@@ -462,7 +462,11 @@ def teardown (env : Env) (hooks : List Hook) (force relOk1 relOk2 : Bool) (nTask
       let env := { env with cancelled := env.cancelled ++ cancelled }
       let pre := h.2.1 ++ ts.2 ++ [Step.release nTasks true] ++ d.2 ++ [Step.cancel cancelled]
       if !relOk2 then (env, pre ++ [Step.release 0 false], .releaseFailed)
-      else ({ env with st := .DONE, gone := true }, pre ++ [Step.release 0 true, Step.setState .DONE], .ok)
+      else
+        -- TeardownEnvironment ends with `return err`, and `err` still holds the error of the
+        -- leave_<state> hooks unless a DESTROY weight overwrote it (with TriggerHooks' result)
+        let res := if h.2.2 > 0 ∧ ws.isEmpty then Result.reported [(h.2.2, Moment.leave env.st)] else .ok
+        ({ env with st := .DONE, gone := true }, pre ++ [Step.release 0 true, Step.setState .DONE], res)
 
 /-! ### request sequences -/
 
